@@ -12,9 +12,13 @@ The real kill outcomes must equal the model's `proc` string, and `safe=1 exec=ok
 The oracle restates C04 directly on the observed trace and the kill results.
 """
 import itertools
+import json
 import os
+import re
 import shutil
 import stat
+import subprocess
+import sys
 import tempfile
 
 from bv.common import Property, Failure, time_limit, exc_name, CaseTimeout, Driver
@@ -26,6 +30,148 @@ PART = 'dest.txt.part'
 
 class BodyError(Exception):
     pass
+
+
+# the save as run under `strace -f` (syscall view): argv = repo, dest, json(case)
+SYS_CHILD = r"""
+import sys, os, json
+sys.path.insert(0, sys.argv[1])
+import boltons.fileutils as fu
+dest, case = sys.argv[2], json.loads(sys.argv[3])
+kw = {}
+for name, key, default in (('overwrite', 'ow', 1), ('overwrite_part', 'owp', 0), ('rm_part_on_exc', 'rm', 1), ('text_mode', 'txt', 0)):
+    if case[key] != default:
+        kw[name] = bool(case[key])
+if case['perms'] is not None:
+    kw['file_perms'] = case['perms']
+if case.get('buffering', -1) != -1 and not (case['txt'] and case['buffering'] == 0):
+    kw['buffering'] = case['buffering']
+class BodyError(Exception): pass
+os.umask(case['umask'])
+os.write(2, b'BV-MARK-BEGIN')
+try:
+    with fu.atomic_save(dest, **kw) as f:
+        for n in case['sizes']:
+            f.write('\x01' * n if case['txt'] else b'\x01' * n)
+        if case['raises']:
+            raise BodyError()
+    out = 'ok'
+except BodyError:
+    out = 'body'
+except OSError as e:
+    out = 'os:%s' % e.errno
+except Exception as e:
+    out = 'exc:' + type(e).__name__
+os.write(2, b'BV-MARK-END')
+print(out)
+"""
+SYS_TRACE = ('openat,open,creat,write,pwrite64,writev,fsync,fdatasync,sync_file_range,close,rename,renameat,renameat2,'
+             'link,linkat,symlink,symlinkat,unlink,unlinkat,chmod,fchmod,fchmodat,truncate,ftruncate,copy_file_range,sendfile')
+_SYS_LINE = re.compile(r'^\d+\s+(\w+)\((.*)\)\s+=\s+(-?\d+)')
+_STR = re.compile(r'"((?:[^"\\]|\\.)*)"')
+
+
+def sys_events(text, dest):
+    """map the strace lines between the markers to abstract events (same vocabulary as fsspy.events)"""
+    lines = text.splitlines()
+    try:
+        a = next(i for i, l in enumerate(lines) if 'BV-MARK-BEGIN' in l)
+        b = next(i for i, l in enumerate(lines) if 'BV-MARK-END' in l)
+    except StopIteration:
+        return None
+    fdpath, fdwr = {}, {}
+    part = [None]
+    evs, calls = [], []
+    # first pass: the part file is the first non-destination path opened for writing
+    for l in lines[a + 1:b]:
+        m = _SYS_LINE.match(l)
+        if m and m.group(1) in ('openat', 'open', 'creat') and ('O_WRONLY' in m.group(2) or 'O_RDWR' in m.group(2) or m.group(1) == 'creat'):
+            ps = _STR.findall(m.group(2))
+            if ps and os.path.abspath(ps[0].encode().decode('unicode_escape')) != dest:
+                part[0] = os.path.abspath(ps[0].encode().decode('unicode_escape'))
+                break
+
+    def role(p):
+        if p == dest:
+            return 'dest'
+        if part[0] is not None and p == part[0]:
+            return 'part'
+        return 'other'
+    for l in lines[a + 1:b]:
+        if 'unfinished' in l or 'resumed' in l:
+            evs.append('?')
+            calls.append(l)
+            continue
+        m = _SYS_LINE.match(l)
+        if not m:
+            continue
+        name, args, ret = m.group(1), m.group(2), int(m.group(3))
+        paths = [os.path.abspath(x.encode().decode('unicode_escape')) for x in _STR.findall(args)] if name not in ('write', 'pwrite64', 'writev') else []
+        ev = None
+        if name in ('openat', 'open', 'creat'):
+            p = paths[0] if paths else '?'
+            wr = ('O_WRONLY' in args or 'O_RDWR' in args or name == 'creat')
+            if ret >= 0:
+                fdpath[ret], fdwr[ret] = p, wr
+            if not wr:
+                continue                      # read-only opens (imports, ...) are not events
+            if ret < 0:
+                ev = 'n'
+            elif p == dest:
+                ev = 'T' if ('O_TRUNC' in args or name == 'creat') else '?'
+            else:
+                if part[0] is None:
+                    part[0] = p
+                if role(p) != 'part':
+                    continue
+                if 'O_CREAT' not in args or 'O_TRUNC' in args:
+                    ev = '?'
+                else:
+                    mm = re.search(r',\s*(0[0-7]*)\s*$', args)
+                    mode = int(mm.group(1), 8) if mm else 0
+                    ev = 'o%d%d:%d' % ('O_EXCL' in args, os.path.dirname(p) == os.path.dirname(dest), mode)
+        elif name in ('write', 'pwrite64', 'writev', 'fsync', 'fdatasync', 'close', 'fchmod', 'ftruncate', 'sync_file_range'):
+            fd = int(args.split(',')[0])
+            p = fdpath.get(fd)
+            if name == 'close':
+                fdpath.pop(fd, None)
+            if p is None or not fdwr.get(fd) or role(p) == 'other':
+                continue
+            r = role(p)
+            if ret < 0:
+                ev = 'n'
+            elif name in ('write', 'pwrite64', 'writev'):
+                ev = ('w%d f' % ret) if r == 'part' else 'W%d' % ret      # a write syscall is in the page cache at once
+            elif name in ('fsync', 'fdatasync'):
+                ev = 's' if r == 'part' else 'n'
+            elif name == 'close':
+                ev = 'xf' if r == 'part' else 'n'
+            elif name == 'fchmod':
+                mm = re.search(r',\s*(0[0-7]*)\s*$', args)
+                ev = ('c%d' % int(mm.group(1), 8)) if (r == 'part' and mm) else '?'
+            else:
+                ev = '?'
+        else:
+            rs = [role(p) for p in paths]
+            if not any(r in ('dest', 'part') for r in rs):
+                continue
+            if ret < 0:
+                ev = 'n'
+            elif name in ('rename', 'renameat', 'renameat2'):
+                ev = 'R' if rs[:2] == ['part', 'dest'] else '?'
+            elif name in ('link', 'linkat'):
+                ev = 'L' if rs[:2] == ['part', 'dest'] else '?'
+            elif name in ('unlink', 'unlinkat'):
+                ev = 'U' if rs[0] == 'part' else 'D'
+            elif name in ('chmod', 'fchmodat'):
+                mm = re.search(r',\s*(0[0-7]*)\s*(?:,\s*\w+)?$', args)
+                ev = ('c%d' % int(mm.group(1), 8)) if (rs[0] == 'part' and mm) else '?'
+            else:
+                ev = '?'
+        for tok in ev.split():
+            evs.append(tok)
+            calls.append(name)
+    return evs, calls
 
 
 def classify(old, new, cur):
@@ -60,6 +206,21 @@ class C04(Property):
         super().__init__(tier, seed)
         self._cache = {}
 
+    # ------------------------------------------------------------------ translator hook
+    def regen(self):
+        """constants of the current source the model relies on: the open flags of the part file"""
+        import boltons.fileutils as fu
+        txt, binf = fu._TEXT_OPENFLAGS, fu._BIN_OPENFLAGS
+        def b(x):
+            return 'true' if x else 'false'
+        src = ('/- generated by harness/bv/props/c04.py regen() from boltons/fileutils.py - do not edit -/\n'
+               'namespace C04.Gen\n'
+               'def textFlagsExcl : Bool := %s\ndef textFlagsCreat : Bool := %s\ndef textFlagsTrunc : Bool := %s\n'
+               'def binFlagsExcl : Bool := %s\ndef binFlagsCreat : Bool := %s\ndef binFlagsTrunc : Bool := %s\n'
+               'end C04.Gen\n') % (b(txt & os.O_EXCL), b(txt & os.O_CREAT), b(txt & os.O_TRUNC),
+                                    b(binf & os.O_EXCL), b(binf & os.O_CREAT), b(binf & os.O_TRUNC))
+        return {'C04_Consts.lean': src}
+
     # ------------------------------------------------------------------ generation
     PATTERNS = {'none': [], 'one': [5], 'many': [3, 1, 4, 1, 5, 9, 2, 6], 'large': [300000]}
 
@@ -81,7 +242,16 @@ class C04(Property):
         yield dict(base, dest=[0o644, 5], sizes=[5])
         yield dict(base, dest=[0o644, 0], sizes=[])
         yield dict(base, dest=[0o644, 0], sizes=[2])
-        n = 150 if self.thorough else 12
+        # syscall view (strace -f): the same acceptance on what the kernel saw
+        sys_cases = [dict(base, dest=None, sizes=[5, 70000]), dict(base, dest=[0o644, 11], ow=0, sizes=[3]),
+                     dict(base, dest=[0o600, 4], txt=1, sizes=[2, 2], raises=1), dict(base, dest=[0o644, 11], perms=0o600, part=1, owp=1)]
+        if self.thorough:
+            sys_cases += [dict(base, ow=ow, dest=dest, txt=txt, sizes=self.PATTERNS[pat], raises=raises)
+                          for ow, dest, txt, pat, raises in itertools.product((1, 0), (None, [0o644, 11]), (0, 1), ('none', 'one', 'many', 'large'), (0, 1))]
+        if self.have_strace():
+            for c in sys_cases:
+                yield dict(c, kind='sys')
+        n = 800 if self.thorough else 60
         for i in range(n):
             k = rng.choice([0, 1, 2, 3, 5, 8, 20] + ([200] if self.thorough and i % 10 == 0 else []))
             sizes = [rng.choice([0, 1, 2, 7, 100, 4096, 8192, 8193, 70000]) for _ in range(k)]
@@ -156,7 +326,57 @@ class C04(Property):
         with open(path, 'rb') as fh:
             return fh.read()
 
+    _strace = None
+
+    def have_strace(self):
+        if C04._strace is None:
+            exe = shutil.which('strace')
+            ok = False
+            if exe:
+                try:
+                    ok = subprocess.run([exe, '-f', '-o', os.devnull, '-e', 'trace=write', sys.executable, '-c', 'pass'],
+                                        stdout=subprocess.DEVNULL, stderr=subprocess.DEVNULL, timeout=20).returncode == 0
+                except Exception:
+                    ok = False
+            C04._strace = exe if ok else False
+            self.stats['strace'] = 'available' if ok else 'not available (syscall view skipped)'
+        return C04._strace
+
+    def impl_sys(self, case):
+        from bv.common import REPO
+        old, new = self.contents(case)
+        obs = {'events': [], 'calls': [], 'out': 'ok', 'kills': None, 'final': '?', 'part': 0, 'extra': []}
+        d = None
+        try:
+            d, dest = self.prepare(case)
+            tr = os.path.join(d, 'bv-strace.txt')
+            cj = json.dumps({k: case[k] for k in ('ow', 'owp', 'rm', 'txt', 'perms', 'umask', 'sizes', 'raises', 'buffering')})
+            p = subprocess.run([self.have_strace(), '-f', '-s', '16', '-o', tr, '-e', 'trace=' + SYS_TRACE,
+                                sys.executable, '-c', SYS_CHILD, REPO, dest, cj],
+                               stdout=subprocess.PIPE, stderr=subprocess.PIPE, text=True, timeout=60)
+            obs['out'] = (p.stdout.strip().splitlines() or ['exc:NoOutput'])[-1]
+            with open(tr) as f:
+                parsed = sys_events(f.read(), dest)
+            os.unlink(tr)
+            if parsed is None:
+                obs['out'] = 'exc:NoTrace'
+            else:
+                obs['events'], obs['calls'] = parsed
+            obs['final'] = classify(old, new, self.look(dest))
+            names = sorted(os.listdir(d))
+            obs['part'] = 1 if PART in names else 0
+            obs['extra'] = [n for n in names if n not in (DEST, PART)]
+        except subprocess.TimeoutExpired:
+            obs['out'] = 'exc:CaseTimeout'
+        finally:
+            if d:
+                shutil.rmtree(d, ignore_errors=True)
+        self._cache[self.key(case)] = obs['events']
+        return obs
+
     def impl(self, case, kills=True):
+        if case.get('kind') == 'sys':
+            return self.impl_sys(case)
         import boltons.fileutils as fu
         old, new = self.contents(case)
         old_umask = os.umask(case['umask'])
@@ -222,17 +442,20 @@ class C04(Property):
             self.impl(case)
         evs = self._cache[k]
         dest = '-' if case['dest'] is None else '%d:%d' % tuple(case['dest'])
-        return ' '.join(['A', str(case['umask']), dest, str(case['part'])] + evs)
+        return ' '.join(['S' if case.get('kind') == 'sys' else 'A', str(case['umask']), dest, str(case['part'])] + evs)
 
     def render(self, case, obs):
         # what a safe, feasible trace must give; the letters are the REAL kill outcomes
-        return 'safe=1 exec=ok proc=%s power=ok final=%s part=%d' % (obs['kills'], obs['final'], obs['part'])
+        return 'safe=1 exec=ok proc=%s power=ok final=%s part=%d' % (
+            '-' if obs['kills'] is None else obs['kills'], obs['final'], obs['part'])
 
     # ------------------------------------------------------------------ oracle: C04 restated on trace + kills
     def oracle(self, case, obs):
         st = self.stats
         st['saves'] = st.get('saves', 0) + 1
-        st['kill_points'] = st.get('kill_points', 0) + len(obs['kills'])
+        st['kill_points'] = st.get('kill_points', 0) + len(obs['kills'] or '')
+        if case.get('kind') == 'sys':
+            st['syscall_view_cases'] = st.get('syscall_view_cases', 0) + 1
         for e in obs['events']:
             st['ev:' + e[0]] = st.get('ev:' + e[0], 0) + 1
         self._nt = False
@@ -270,7 +493,9 @@ class C04(Property):
                     return Failure('order', 'no fsync between the flush and the publishing event')
         # kill results: old (or still absent) before the publishing call has run, complete new content after
         kills = obs['kills']
-        if len(kills) != len(evs) + 1:
+        if kills is None:
+            kills = ''         # syscall view: no kill outcomes
+        elif len(kills) != len(evs) + 1:
             return Failure('kill-harness', 'expected %d kill outcomes, got %d' % (len(evs) + 1, len(kills)))
         for k, letter in enumerate(kills):
             if letter not in (old_letter, 'n', 'b'):
@@ -319,7 +544,7 @@ class C04(Property):
                                        str(c['part']), str(c['raises']), ','.join(map(str, c['sizes'])) or '-']))
                 obs_ev.append(' '.join(e for e in o['events'] if e != 'n'))
             outs = drv.query(lines)
-            same = sum(1 for a, b in zip(outs, obs_ev) if a == b)
+            same = sum(1 for a, b in zip(outs, obs_ev) if ' '.join(t for t in a.split() if t != 'n') == b)
             self.stats['observed_trace_identical_to_saverTrace'] = '%d/%d' % (same, len(outs))
         except Exception as e:  # diagnostic only
             self.stats['observed_trace_identical_to_saverTrace'] = 'n/a (%s)' % exc_name(e)
